@@ -77,6 +77,8 @@ func init() {
 			Syncs   int    `json:"syncs"`   // 1..2 sync goroutines
 			Pending int    `json:"pending"` // operations issued and not yet pushed before the run
 			Stmt    bool   `json:"stmt"`
+			TxFail  bool   `json:"txfail"` // the transaction's body returns an error after its two calls: nothing of it may remain
+			Quiet   bool   `json:"quiet"`  // the replica has pulled everything before the run: sync answers carry no foreign operations
 		}
 		json.Unmarshal(args, &a)
 		return schedScenario{name: "c20sync", build: func(x *schedExec) ([]activity, func() *pt.Violation, func() *pt.Violation, func()) {
@@ -109,6 +111,9 @@ func init() {
 			local(other, 100, "o1")
 			local(other, 1000, "o2")
 			sync1(other)
+			if a.Quiet {
+				sync1(r)
+			}
 			issued := 0
 			for i := 0; i < a.Pending; i++ {
 				if local(r, 1, fmt.Sprintf("p%d", i)) {
@@ -156,13 +161,21 @@ func init() {
 			})})
 			if a.Users >= 2 {
 				acts = append(acts, activity{name: "u1-tx", f: guard("u1", func() {
-					var err error
-					if a.Type == "counter" {
-						err = r.cnt.Transaction("tx", func(c orda.CounterInTx) error { c.IncreaseBy(10); c.IncreaseBy(10); return nil })
-					} else {
-						err = r.li.Transaction("tx", func(l orda.ListInTx) error { l.Insert(0, "u1a"); l.Insert(1, "u1b"); return nil })
+					var err, ret error
+					if a.TxFail {
+						ret = fmt.Errorf("the body gives up")
 					}
-					if err == nil {
+					if a.Type == "counter" {
+						err = r.cnt.Transaction("tx", func(c orda.CounterInTx) error { c.IncreaseBy(10); c.IncreaseBy(10); return ret })
+					} else {
+						err = r.li.Transaction("tx", func(l orda.ListInTx) error { l.Insert(0, "u1a"); l.Insert(1, "u1b"); return ret })
+					}
+					if err == nil && a.TxFail {
+						mu.Lock()
+						panics = append(panics, "u1: Transaction returned nil although its body returned an error")
+						mu.Unlock()
+					}
+					if err == nil && !a.TxFail {
 						note(3, 20, "u1a", "u1b")
 					}
 				})})
